@@ -243,12 +243,42 @@ def fam_growth(tier, seed, tag, nruns, conc=False, faults=False):
             # sequential fill up to a few clusters before the boundary, then small concurrent writers
             k = 0
             filled = 0
-            while filled < rbn - 12 and mode != 3:
+            tight = i % 2 == 1 and mode != 3
+            if tight:
+                order = list(range(vc))          # the free guest clusters stay adjacent
+            while filled < rbn - 12 and mode != 3 and not tight:
                 steps.append({"op": "write", "gb": order[k] * bpc, "n": bpc})
                 # allocation is per write: guest clusters need not be adjacent to fill the refblock
                 filled += 1
                 k += 1
-                if k % 32 == 0:
+                # (tight: every slice of the refblock stays dirty up to the boundary)
+                if k % 32 == 0 and not tight:
+                    steps.append({"op": "flush"})
+            if tight:
+                # directed: everything dirty, stop a little more than one refblock slice before the boundary; then two
+                # flushers (flush_meta, and a discard or a second flush_meta) overlap ONE writer whose run of clusters
+                # uses up the tail of this slice, the whole next slice and goes on into the refblock that does not exist yet
+                spr = 64 if rbn > 64 else 0                       # clusters per 512-byte refblock slice (64-bit refcounts)
+                stop = rbn - spr - rng.choice([2, 3, 5])
+                while filled < stop:
+                    steps.append({"op": "write", "gb": order[k] * bpc, "n": bpc})
+                    filled += 1
+                    k += 1
+                run = sorted(order[k:])
+                # a run of adjacent free guest clusters
+                best, cur = [], []
+                for c in run:
+                    cur = cur + [c] if cur and c == cur[-1] + 1 else [c]
+                    if len(cur) > len(best):
+                        best = list(cur)
+                need = rbn - stop + rng.choice([3, 6])
+                if len(best) >= need:
+                    big = {"op": "write", "gb": best[0] * bpc, "n": need * bpc}
+                    used = set(best[:need])
+                    order = [c for c in order[:k]] + [c for c in order[k:] if c not in used]
+                    grp = [{"op": "flush"}, rng.choice([{"op": "flush"}, {"op": "discard", "gb": order[rng.randrange(k)] * bpc, "n": bpc}]), big]
+                    rng.shuffle(grp)
+                    steps.append({"op": "par", "ops": grp})
                     steps.append({"op": "flush"})
             nw = k + rng.randrange(12, 24)
             while k < nw:
@@ -1095,7 +1125,14 @@ def check_C07(chk):
     n = 200 if chk.tier == "quick" else 4000
     scens = fam_conc(chk.tier, chk.seed, "c07", n, groups=3, maxops=5)
     scens += fam_conc(chk.tier, chk.seed, "c07b", n // 4, backing=True, groups=2, maxops=4)
-    scens += fam_growth(chk.tier, chk.seed, "c07g", 12 if chk.tier == "quick" else 200, conc=True)
+    # schedule sweep: each scenario is also run under further schedule seeds inside the harness (no trace, no TLC);
+    # the first run that hangs or panics replaces the base run and is then judged like any other
+    for s_ in scens:
+        s_["sched_sweep"] = 12 if chk.tier == "quick" else 100
+    gr = fam_growth(chk.tier, chk.seed, "c07g", 48 if chk.tier == "quick" else 400, conc=True)
+    for s_ in gr:
+        s_["sched_sweep"] = 40 if chk.tier == "quick" else 200
+    scens += gr
     scens += fam_regress()
     res, st = Q.run_batch(scens, chk.wd, known=chk.known_tags(), par=14)
     chk.consume(res, st, props=("C07", "PANIC"))
